@@ -123,6 +123,10 @@ func (p *C08) Generate(seed uint64, run int) *Case {
 		st2 := st
 		st2.Argv = append(append([]string{}, argv...), "-o", outPath)
 		st2.Note = "outfile"
+		if r.Chance(1, 2) {
+			st2.Files = nil
+			withExistingOutput(r, &st2)
+		}
 		c.Steps = append(c.Steps, st2)
 	}
 	return c
